@@ -134,7 +134,7 @@ Record request := {
   q_tls : bool;                         (* the connection to heimdall is TLS (req.TLS != nil) *)
   q_peer : string;                      (* address of the peer as httpx.IPFromHostPort renders it *)
   q_trusted : bool;                     (* oracle: the peer is in trusted_proxies *)
-  q_xfu : option (string * string)      (* oracle: url.Parse of the X-Forwarded-Uri the view sees: EscapedPath(), Query().Encode() *)
+  q_xfu : option (string * string)      (* oracle: what extractURL reads from the X-Forwarded-Uri the view sees: (EscapedPath, RawQuery as sent); for a value url.Parse rejects the text before / after the first '?' *)
 }.
 
 (** what the pipeline handed over: AddHeaderForUpstream calls in order,
@@ -152,19 +152,17 @@ Record rule := {
 
 (** which repairs the modelled tree contains: C08-F2 (case-insensitive %2f
     under `off`, owned by C08), C13-F3 (all values of a pipeline header are
-    handed over, owned by C13), C15-F1, -F4, and the candidates -F6
-    (fixes/C15-F6.diff) and -F7 (fixes/C15-F7.diff) *)
+    handed over, owned by C13), C15-F1 (41fd1db), -F4 (35453b2), -F6 (5270ed2)
+    and -F7 (f228b67) *)
 Record fixes := { fx_c08f2 : bool; fx_c13f3 : bool; fx_f1 : bool; fx_f4 : bool; fx_f6 : bool; fx_f7 : bool }.
 Definition fx_q (fx : fixes) : qfix := {| qf1 := fx_f1 fx; qf6 := fx_f6 fx |}.
-Definition pinned : fixes :=
-  {| fx_c08f2 := false; fx_c13f3 := false; fx_f1 := false; fx_f4 := false; fx_f6 := false; fx_f7 := false |}.
 (** the tree before C15's own repairs: C08-F2 repaired by a779db8, C13-F3 by a5ef279 *)
 Definition current : fixes :=
   {| fx_c08f2 := true; fx_c13f3 := true; fx_f1 := false; fx_f4 := false; fx_f6 := false; fx_f7 := false |}.
 (** C15-F1 repaired by 41fd1db, C15-F4 by 35453b2 *)
 Definition repaired : fixes :=
   {| fx_c08f2 := true; fx_c13f3 := true; fx_f1 := true; fx_f4 := true; fx_f6 := false; fx_f7 := false |}.
-(** ... and with fixes/C15-F6.diff and fixes/C15-F7.diff *)
+(** /repo as it is: also C15-F6 repaired by 5270ed2, C15-F7 by f228b67 *)
 Definition repaired2 : fixes :=
   {| fx_c08f2 := true; fx_c13f3 := true; fx_f1 := true; fx_f4 := true; fx_f6 := true; fx_f7 := true |}.
 
@@ -277,7 +275,7 @@ Definition forwarded_element (peer host proto : string) : string :=
 Definition h_joined (k : string) (h : header) : string := join_with ", " (h_values k h).
 
 (** the forwarded-header block of rewriteRequest; [hin] = proxyReq.In.Header,
-    [tls] = proxyReq.In.TLS != nil; [all_lines] = with fixes/C15-F7.diff every
+    [tls] = proxyReq.In.TLS != nil; [all_lines] = since f228b67 (C15-F7) every
     field line of X-Forwarded-For / Forwarded counts, before only the first *)
 Definition forwarded_block (all_lines tls : bool) (hin : header) (in_host peer : string) (h : header) : header :=
   let fhost := h_get "X-Forwarded-Host" hin in
@@ -298,7 +296,7 @@ Definition rewrite_request (fx : fixes) (q : request) (pl : pipeline) (target_ho
   let hin := in_headers q in
   let h := strip_forwarding (remove_hop_by_hop hin) in
   let h := h_del_all ["X-Forwarded-Method"; "X-Forwarded-Uri"; "X-Forwarded-Path"] h in
-  (* with fixes/C15-F4.diff the forwarded-header block runs before the pipeline's headers are applied *)
+  (* since 35453b2 (C15-F4) the forwarded-header block runs before the pipeline's headers are applied *)
   let h := if fx_f4 fx then forwarded_block (fx_f7 fx) (q_tls q) hin (q_host q) (q_peer q) h else h in
   let uh := upstream_headers pl in
   let h := set_pipeline_headers (fx_c13f3 fx) uh h in
